@@ -261,9 +261,9 @@ for sz in HEAP_T:
     add('k1_heap', 'heap_rawparts_' + sz, 'heap_rawparts_h::<%s>()' % TY[sz], props=['C17', 'C18'], tier='q' if sz in ('e8', 'z0') else 't', cost=5, macro='ha')
     if sz != 'z0':
         add('k1_heap', 'heap_invalid_' + sz, 'heap_invalid_h::<%s>()' % TY[sz], props=['C18'], tier='q' if sz in ('e8', 'e3', 'a64') else 't', kind='panic',
-            attrs=['#[kani::should_panic]'], allow=[r'unwrap', r'LayoutError', r'capacity overflow', r'expect', r'Result::<.*>::unwrap'], cost=10, macro='ha')
+            attrs=['#[kani::should_panic]'], allow=[r'in function core::(option|result)::(unwrap_failed|expect_failed)', r'capacity overflow'], cost=10, macro='ha')
         add('k1_heap', 'heap_expand_invalid_' + sz, 'heap_expand_invalid_h::<%s>()' % TY[sz], props=['C18', 'C10'], tier='q' if sz in ('e8', 'e3') else 't', kind='panic',
-            attrs=['#[kani::should_panic]'], allow=[r'unwrap', r'LayoutError', r'capacity overflow', r'expect', r'Result::<.*>::unwrap'], cost=10, macro='ha')
+            attrs=['#[kani::should_panic]'], allow=[r'in function core::(option|result)::(unwrap_failed|expect_failed)', r'capacity overflow'], cost=10, macro='ha')
 
 
 # ---------------------------------------------------------------------------------------------------
